@@ -14,6 +14,14 @@ CLAIMED = {
         "and a tree-consistency/locality oracle runs after every step.",
    note="Tree invariant is checked by oracle + correspondence on histories, proved only for the codec part so far; Fernet idealised.",
    technique="Lean 4 proof (induction on strings) + model/implementation correspondence on operation histories", ref="6 C14"),
+ "C17": dict(
+   text="Lean theorems for every value/type/timestamp string and every crypto instance satisfying functional correctness (Sound): round trip in "
+        "the four key configurations under the forced separator guards (with counter-example theorems for the guards), unique parse of "
+        "authenticated bytes in signed+encrypted mode under ciphertext integrity, and a proved counter-example (boundary shift) for signed-only "
+        "mode; the model is tied to CookieHandler by correspondence on round trips and structural mutations of genuine cookies.",
+   note="HMAC/AES-GCM/Fernet/base64 are parameters of the model; their values on the needed points are supplied to the driver by the harness. "
+        "Client-side cookie code not modelled.",
+   technique="Lean 4 proof (decision logic over an abstract crypto interface + length-value framing lemmas) + correspondence on mutated cookies", ref="6 C17"),
 }
 NOT_YET = {}
 ALL = [f"C{i:02d}" for i in range(1, 21)]
